@@ -445,7 +445,10 @@ func (mw *msgWriter) writePart(part *Part, charset Charset) {
 	if mw.depth > 0 {
 		mimeHeader := textproto.MIMEHeader{}
 		if part.description != "" {
-			mimeHeader.Add(string(HeaderContentDescription), part.description)
+			// encoded like every other free-text header value: line breaks, control and
+			// non-ASCII characters must not reach the part header as they are
+			mimeHeader.Add(string(HeaderContentDescription),
+				mw.encoder.Encode(partCharset.String(), part.description))
 		}
 		mimeHeader.Add(string(HeaderContentTransferEnc), contentTransferEnc)
 		mimeHeader.Add(string(HeaderContentType), contentType)
